@@ -419,6 +419,7 @@ func run1(c Case) (res Result) {
 
 	reqs := requests()
 	_ = lb.take()
+	noResponse := 0
 	for i, rq := range reqs {
 		skip := false
 		for _, s := range c.Skip {
@@ -508,6 +509,12 @@ func run1(c Case) (res Result) {
 		res.Classes[cls]++
 		if err != nil {
 			viol("C20/no-response/"+rq.Method+rq.Path, "request %d (%s) got no HTTP response: %v\nserver log: %s", i, rq.Desc, err, tail(logs, 600))
+			if noResponse++; noResponse >= 3 {
+				// the node has stopped answering: every further request would only wait for its time-out
+				return
+			}
+		} else {
+			noResponse = 0
 		}
 		if panicRe.MatchString(logs) {
 			viol("C20/panic-in-log/"+rq.Method+rq.Path, "request %d (%s) made the server log a panic:\n%s", i, rq.Desc, tail(logs, 900))
@@ -668,7 +675,7 @@ func TestCheck(t *testing.T) {
 	}
 	cases = append(cases, Case{Role: "primary", Proto: "h2c", Held: true}, Case{Role: "primary", Proto: "h1", Held: true})
 	pool := vlib.NewPool()
-	pool.CaseTimeout = 15 * time.Minute
+	pool.CaseTimeout = 3 * time.Minute // a case takes some ten seconds; one that does not end is run again alone with four times this
 	pool.ASLimitGB = 12
 	defer pool.Close()
 	total := 0
